@@ -129,7 +129,8 @@ def dyadic_grid(rng, N=None, dt=None):
     """Time grid whose entries, and every difference used by the code, are exact in binary64."""
     dt = dt or rng.choice(DT_CHOICES)
     N = N or rng.choice([rng.randint(8, 64), rng.randint(65, 256), 64, 128, 255, 256, 33])
-    i0 = rng.randint(-300, 300)
+    # the first sample is in general NOT a multiple of dt (dyadic fractions keep every difference exact)
+    i0 = rng.randint(-300, 300) + rng.choice([0.0, 0.0, 0.25, 0.5, 0.625, 0.875])
     return [(i0 + i) * dt for i in range(N)], dt, i0
 
 
@@ -589,7 +590,8 @@ def probes(ctx, mult=1, models=MODELS):
             if vm is not None and not np.array_equal(vm, v):
                 fail("even_in_angle", c, "pulse for -psi differs from +psi by %.3g (peak %.3g)" % (float(np.abs(vm - v).max()), peak))
             # ---- joint shift (exact: the grid is dyadic, so times+s, t0+s and all differences are exact)
-            s = rng.choice([1, -1]) * rng.randint(1, 4000) * dt * rng.choice([1, 2, 8])
+            # common shift of grid and shower time, in general NOT a whole number of samples
+            s = rng.choice([1, -1]) * (rng.randint(1, 4000) * rng.choice([1, 2, 8]) + rng.choice([0.0, 0.125, 0.375, 0.5, 0.875])) * dt
             ts = [t + s for t in c["times"]]
             t0s = c["t0"] + s
             exact = all((a - s) == b for a, b in zip(ts, c["times"])) and (t0s - s) == c["t0"] and \
@@ -772,7 +774,7 @@ def probes(ctx, mult=1, models=MODELS):
             # joint shift with the shower far outside the window (bitwise)
             n0 = rng.choice([-2 * N, -N, -N // 2 - 1, N + N // 2, 2 * N, rng.randint(-2 * N, 3 * N - 1)])
             t0 = t00 + (n0 + frac) * dt
-            sft = rng.choice([1, -1]) * rng.randint(1, 4000) * dt
+            sft = rng.choice([1, -1]) * (rng.randint(1, 4000) + rng.choice([0.0, 0.125, 0.375, 0.5, 0.875])) * dt
             ts = [t + sft for t in c["times"]]
             if all((a - sft) == b for a, b in zip(ts, c["times"])) and (t0 + sft - sft) == t0 and (t0 + sft - ts[0]) == (t0 - t00) \
                     and (ts[1] - ts[0]) == dt and (ts[-1] + dt) - (t0 + sft) == (c["times"][-1] + dt) - t0:
